@@ -25,7 +25,7 @@ from hsverif.core import Result
 from happysimulator.components.consensus.flexible_paxos import FlexiblePaxosNode
 from happysimulator.components.consensus.multi_paxos import MultiPaxosNode
 from happysimulator.components.consensus.raft_state_machine import KVStateMachine
-from happysimulator.core.event import ProcessContinuation
+from happysimulator.core.event import Event, ProcessContinuation
 
 PREFIX = {"multi": "MultiPaxos", "flex": "FlexPaxos"}
 CLASSNAME = {"multi": "MultiPaxosNode", "flex": "FlexiblePaxosNode"}
@@ -165,6 +165,53 @@ def gen_log(kind: str):
     return gen
 
 
+def gen_handover(rng: random.Random, tier: str) -> dict:
+    """Fault-free Multi-Paxos leader hand-over with client commands swept across the hand-over round trip.
+
+    Constant-delay (FIFO) loss-free links.  `old` is the established leader with slot 1 committed everywhere; `new`
+    campaigns at T with a command of its own (queued before start(), or forwarded to it right after its election);
+    1-3 client commands are forwarded (MultiPaxosForward) to the OLD leader at offsets between -1.5 and +4.5 link delays
+    around T (Prepare arrives at +1, the new leader's first heartbeat at +3), plus one well before and one well after."""
+    n = rng.choice([3, 3, 5])
+    names = [f"n{i}" for i in range(n)]
+    d = rng.choice([0.005, 0.01, 0.02])
+    hb = rng.choice([0.2, 0.5])
+    old, new = rng.sample(names, 2)
+    T = round(0.1 + 3 * hb + rng.uniform(0, hb), 6)
+    submits = [{"to": old, "at": 0.05, "id": "c-first", "kick": False}]
+    own = rng.choice(["queued", "queued", "forward-after-election"])
+    if own == "queued":
+        submits.append({"to": new, "at": round(T - 1e-4, 6), "id": "c-new", "kick": False})
+    else:
+        submits.append({"to": new, "at": round(T + 2 * d + rng.uniform(0.0, 1.5 * d), 6), "id": "c-new", "kick": False, "via": "forward"})
+    k = rng.choice([1, 1, 2, 3])
+    for i in range(k):
+        off = rng.uniform(-1.5, 4.5) * d
+        submits.append({"to": old, "at": round(T + off, 6), "id": f"c-old{i}", "kick": False, "via": "forward"})
+    if rng.random() < 0.5:
+        submits.append({"to": old, "at": round(T - rng.uniform(10 * d, 0.9 * hb), 6), "id": "c-early", "kick": False, "via": "forward"})
+    if rng.random() < 0.5:
+        submits.append({"to": rng.choice([old, new]), "at": round(T + rng.uniform(8 * d, 2 * hb), 6), "id": "c-late", "kick": False, "via": "forward"})
+    if rng.random() < 0.2:
+        rng.choice(submits)["falsy"] = rng.choice(FALSY)
+    submits.sort(key=lambda s_: s_["at"])
+    return {
+        "kind": "multi",
+        "mode": "handover",
+        "n": n,
+        "hb": hb,
+        "gseed": rng.randrange(1 << 30),
+        "script": {"seed": rng.randrange(1 << 30), "family": "fixed", "base": [d, d], "loss": 0.0, "rules": []},
+        "max_delay": d,
+        "old": old,
+        "new": new,
+        "starts": [{"node": old, "at": 0.1}, {"node": new, "at": T}],
+        "submits": submits,
+        "partitions": [],
+        "end": round(T + 4 * hb + 1.0, 6),
+    }
+
+
 class LogMonitor:
     def __init__(self, res: Result, kind: str, nodes, net, applies):
         self.res = res
@@ -196,6 +243,12 @@ class LogMonitor:
         self.commit_trigger: dict = {}  # (node, slot) -> (event type, source)
         self.accepted_from: dict = {}  # (leader, slot) -> [sources]
         self.accept_sent: dict = {}  # (leader, slot) -> [(ballot number, cmd id)]
+        self.accept_sent_at: dict = {}  # (leader, slot) -> [(time, ballot number)]
+        self.pending_prepare: dict = {}  # node -> (was leader before, is leader after, time) of the last Prepare it handled
+        self.led_through_promise: dict = {}  # node -> (time, promised ballot number): still is_leader after answering a Prepare with a Promise
+        self.prepare_at: dict = {}  # node -> time a Prepare of another node was first delivered to it while it was leader
+        self.first_hb_at: dict = {}  # (node, from) -> time of the first heartbeat of `from` delivered to node
+        self.forward_at: list = []  # (time, node, was leader) of MultiPaxosForward deliveries
         self.apply_time: dict = {}  # (node, cmd id) -> time of the apply
         self.withdrawn: dict = {}  # (node, slot) -> event type that made commit_index fall below slot
 
@@ -230,12 +283,30 @@ class LogMonitor:
                 self.accept_sent.setdefault((md.get("source"), md.get("slot")), []).append(
                     (md.get("ballot_number"), self.cid(md.get("command")))
                 )
+                self.accept_sent_at.setdefault((md.get("source"), md.get("slot")), []).append(
+                    (ev.time.to_seconds(), md.get("ballot_number"))
+                )
+            elif et == self.p + "Promise":
+                pp = self.pending_prepare.pop(md.get("source"), None)
+                if pp is not None and pp[0] and pp[1]:
+                    # precursor (never a verdict): the node was leader, answered a Prepare with a Promise and is still is_leader
+                    self.led_through_promise.setdefault(md.get("source"), (pp[2], md.get("ballot_number")))
+            elif et == self.p + "Nack":
+                self.pending_prepare.pop(md.get("source"), None)
             self.sample(ev, None, md)
             return
         node = self.by_id.get(id(tgt))
         if node is not None:
             if len(self.trace) < 900:
                 self.trace.append(self._row(ev, "recv", md, node.name))
+            if et == self.p + "Prepare":
+                self.pending_prepare[node.name] = (self.prev_leader[node.name], node.is_leader, ev.time.to_seconds())
+                if self.prev_leader[node.name]:
+                    self.prepare_at.setdefault(node.name, ev.time.to_seconds())
+            elif et == self.p + "Heartbeat" and not md.get("self_heartbeat"):
+                self.first_hb_at.setdefault((node.name, md.get("source")), ev.time.to_seconds())
+            elif et == self.p + "Forward":
+                self.forward_at.append((ev.time.to_seconds(), node.name, self.prev_leader[node.name]))
             if et == self.p + "Promise":
                 d = self.promised_entries.setdefault(node.name, {})
                 for e in md.get("log_entries", []) or []:
@@ -380,6 +451,12 @@ class LogMonitor:
     # ------------------------------------------------------------------
     # labels: structural precondition of the witness, computed from the observed history
     def label_agreement(self, slot, a, b) -> str:
+        # a node that stayed leader through its own Promise and afterwards sent an Accept for this slot under a ballot
+        # not above the one it promised (0 occurrences of the precursor on the unchanged tree)
+        for (leader, s), sent in self.accept_sent_at.items():
+            lp = self.led_through_promise.get(leader)
+            if s == slot and lp is not None and any(t >= lp[0] and (bn is None or lp[1] is None or bn <= lp[1]) for t, bn in sent):
+                return "leader-kept-leading-after-promising-higher-ballot"
         for x in (a, b):
             if (x, slot) in self.misplaced:
                 return "accept-for-later-slot-appended-at-log-end"
@@ -466,6 +543,10 @@ def run_log(kind: str):
                 else:
                     cmd = {"op": "set", "key": f"k{len(mon.submitted) % 3}", "value": sub["id"]}
                 mon.submitted[sub["id"]] = (ev.time.to_seconds(), node.name)
+                if sub.get("via") == "forward":
+                    # client command handed to a node as a MultiPaxosForward event (the component's own event interface;
+                    # a leader assigns a slot and replicates it, a non-leader ignores it); no future is exposed on this path
+                    return [Event(time=ev.time, event_type="MultiPaxosForward", target=node, context={"metadata": {"command": cmd}})]
                 was_leader = node.is_leader
                 fut = node.submit(cmd)
                 mon.futures.append((node, sub["id"], fut, [False]))
@@ -485,6 +566,20 @@ def run_log(kind: str):
             return res
         if mon.decided:
             res.count("runs_with_decision")
+        if mon.led_through_promise:
+            res.count("precursor_leader_kept_leading_after_promise", len(mon.led_through_promise))
+        if case["mode"] == "handover":
+            res.count("handover_runs")
+            old = case["old"]
+            t_prep = mon.prepare_at.get(old)
+            t_hb = mon.first_hb_at.get((old, case["new"]))
+            in_window = [f for f in mon.forward_at if f[1] == old and t_prep is not None and t_prep <= f[0] and (t_hb is None or f[0] <= t_hb)]
+            if in_window:
+                res.count("forwards_inside_handover_window", len(in_window))
+            # non-trivial: the hand-over happened and a client command reached the old leader between the Prepare it
+            # answered and the new leader's first heartbeat
+            res.nontrivial = len(mon.leaders_seen) >= 2 and bool(in_window) and bool(mon.decided)
+            return res
         if case["mode"] == "live":
             res.count("liveness_runs")
             if case.get("variant") == "handover":
